@@ -222,6 +222,75 @@ pub fn run(tier: &str, seed: u64, out: &Path) -> i32 {
             }
         }
     }
+    // 4b. glue across the files of one run: a crate of two or three files, each a glue program with its own skipped item;
+    //     the report is per run, the exempt ranges are per file: the diagnostics of every file must be what the
+    //     specification gives for that file's text and that file's own true exempt lines.
+    {
+        let work = out.parent().unwrap_or(Path::new("/verif/work")).join("c07crate");
+        let _ = std::fs::remove_dir_all(&work);
+        let _ = std::fs::create_dir_all(&work);
+        let work = std::fs::canonicalize(&work).unwrap_or(work);
+        let home = work.join("home");
+        let _ = std::fs::create_dir_all(&home);
+        let n_crates = if thorough { 1500 } else { 400 };
+        struct Crate {
+            dir: std::path::PathBuf,
+            mw: usize,
+            files: Vec<(String, String, String)>, // name, source, skipped text
+        }
+        let mut crates = vec![];
+        for k in 0..n_crates {
+            let dir = work.join(format!("c{}", k));
+            let _ = std::fs::create_dir_all(&dir);
+            let names: Vec<&str> = if rng.chance(1, 2) { vec!["alpha", "zeta"] } else { vec![*rng.pick(&["alpha", "zeta", "lib_a"])] };
+            let mut files = vec![];
+            let (msrc, mskip) = glue_program(&mut rng, k * 10);
+            let decls: String = names.iter().map(|n| format!("mod {};\n", n)).collect();
+            files.push(("main.rs".to_string(), format!("{}{}", decls, msrc), mskip));
+            for (j, n) in names.iter().enumerate() {
+                let (s, sk) = glue_program(&mut rng, k * 10 + j + 1);
+                files.push((format!("{}.rs", n), s, sk));
+            }
+            for (n, s, _) in &files {
+                let _ = std::fs::write(dir.join(n), s);
+            }
+            crates.push(Crate { dir, mw: rng.range(30, 60), files });
+        }
+        let idx: Vec<usize> = (0..crates.len()).collect();
+        let answers: Vec<Option<serde_json::Value>> = par_map(&idx, |i| {
+            let c = &crates[*i];
+            let spec = json!({"cli_loop": false, "emit": "files", "check": false, "backup": false, "cwd": c.dir.display().to_string(), "inputs": [{"path": c.dir.join("main.rs").display().to_string()}],
+                "config": [["max_width", c.mw.to_string()], ["error_on_line_overflow", "true"], ["error_on_unformatted", "true"]]});
+            crate::sessrun::run_child(&spec, &work.join(format!("spec{}.json", i)), &home, Duration::from_secs(30))
+        });
+        for (c, a) in crates.iter().zip(answers.iter()) {
+            let a = match a { Some(a) => a, None => { o.count("crate:no-answer"); continue; } };
+            let e = &a["entries"][0];
+            if e["kind"] != "ok" || e["flags"].as_str().map(|f| f.as_bytes()[1] == b'1').unwrap_or(true) {
+                o.count("crate:not-formatted");
+                continue;
+            }
+            let diag = e["diag"].as_array().cloned().unwrap_or_default();
+            for (name, _src, st) in &c.files {
+                let text = std::fs::read_to_string(c.dir.join(name)).unwrap_or_default();
+                let path = c.dir.join(name).display().to_string();
+                let mine: Vec<String> = diag.iter().filter(|d| d["file"].as_str() == Some(path.as_str())).filter(|d| d["kind"] == "LineOverflow" || d["kind"] == "TrailingWhitespace").map(|d| if d["kind"] == "LineOverflow" { format!("{}:O:{}:{}:{}:{}", d["line"], d["found"], d["max"], d["c"].as_bool().unwrap_or(false) as u8, d["s"].as_bool().unwrap_or(false) as u8) } else { format!("{}:T:0:0:{}:{}", d["line"], d["c"].as_bool().unwrap_or(false) as u8, d["s"].as_bool().unwrap_or(false) as u8) }).collect();
+                let impl_entries = if mine.is_empty() { "_".to_string() } else { mine.join(";") };
+                match text.find(st.as_str()) {
+                    Some(pos) => {
+                        let lo = text[..pos].matches('\n').count() + 1;
+                        let hi = lo + st.matches('\n').count();
+                        let truth = vec![(lo.saturating_sub(1), hi)];
+                        let req = format!("fl.spec {} 4 1 1 {} all {}", c.mw, enc_ranges(&truth), enc_str(&text));
+                        o.push("oracle", "fl.spec(crate)", req, format!("{} {}", impl_entries, enc_str(&text)), format!("{} of a crate of {} files, max_width {}", name, c.files.len(), c.mw), true);
+                        o.count("crate:file-checked");
+                    }
+                    None => o.direct_failures.push(json!({"sig": "c07:skipped-item-not-verbatim", "what": "a #[rustfmt::skip] item does not occur verbatim in the output (multi-file run)", "file": name, "out": text})),
+                }
+            }
+        }
+        let _ = std::fs::remove_dir_all(&work);
+    }
     // 5. enumerated known-dirty input (F2b): a macro call whose arguments do not parse is copied
     //    verbatim and its *source* line range is recorded as exempt (macros.rs
     //    return_macro_parse_failure_fallback); code above it that grows puts an over-long formatted
